@@ -394,7 +394,8 @@ def run_scenarios(ctx, scenarios, name="prod", shards=8, timeout=1500):
         for s in scenarios:
             f.write(json.dumps(s) + "\n")
     rc, out, trace, sums = ctx.go_test_parallel("^TestVerifProducer$", cases, nproc=12, timeout=timeout, name=name,
-                                                only=["sim_cluster*", "sim_fetch*", "prod_driver*", "prod_sync*"])
+                                                only=["sim_cluster*", "sim_fetch*", "prod_driver*", "prod_sync*"],
+                                                env={"VERIF_INTERNAL": "1"}, extra_files=["internal.ndjson"])
     crash = []
     if rc != 0 and ("panic: " in out or "fatal error: " in out):
         crash = vlib.crash_violations(out)
@@ -419,8 +420,9 @@ def run_scenarios(ctx, scenarios, name="prod", shards=8, timeout=1500):
     # attach features: scenario configuration, the violating event, and the cause-level
     # features the known-finding signatures speak about (computed from the trace itself)
     if viols:
-        if any(x["clause"] == "sim_inconsistent" for x in viols):
-            raise vlib.Inconclusive("simulated cluster inconsistent (append base mismatch)")
+        if any(x["clause"] in ("sim_inconsistent", "sim_broker_rules") for x in viols):
+            raise vlib.Inconclusive("simulated cluster disagrees with the environment part of the specification "
+                                    "(append base / Kafka sequence rules): %s" % [x for x in viols if x["clause"].startswith("sim_")][:2])
         events = vlib.read_ndjson(trace)
         bytrace = {}
         for e in events:
@@ -432,6 +434,23 @@ def run_scenarios(ctx, scenarios, name="prod", shards=8, timeout=1500):
             v["features"] = {"scenario": cfg.get("name"), "family": cfg.get("family"), "idem": cfg.get("idem"),
                              "retryMax": cfg.get("retryMax"), "nparts": cfg.get("nparts"), "nbrokers": cfg.get("nbrokers"),
                              "cause": cause_of(tr, v["index"]), "err": e.get("err", ""), "event": e}
+    # soft conformance of the partition worker's retry state machine (never decides a property)
+    try:
+        itrace = ctx.extra_traces.get("internal.ndjson")
+        if itrace and os.path.getsize(itrace) > 100:
+            drs = ctx.tlc_trace("PpConfTrace", "PpConfTrace.cfg", itrace, shards=4, name="ppconf-" + name)
+            nd, pst = 0, {}
+            for r in drs:
+                for lst in r.printed("DRIFT"):
+                    nd += len(lst)
+                for d in r.printed("STATS"):
+                    for k, v in d.items():
+                        pst[k] = pst.get(k, 0) + v
+            stats["ppconf"] = dict(pst, drift_events=nd)
+            if nd:
+                ctx.say("DRIFT spec=Producer.tla/PpRecv: %d hook events of the partition worker are not explained by the model (soft; verdict unaffected)" % nd)
+    except Exception as e:   # soft: never fail the check
+        stats["ppconf"] = {"error": str(e)[:200]}
     return viols + crash, stats, trace, cases
 
 
@@ -517,6 +536,7 @@ def check(ctx, pid, families, mc_cfgs, level="model_checking", extra_assumptions
         "samples": samples,
         "scenarios_by_family": fam_counts,
         "behaviours_from_model": gen_stats,
+        "partition_worker_conformance": stats.get("ppconf", {}),
         "real_run_counts": {k: stats.get(k, 0) for k in ("successes", "errors", "appends", "requests", "retried", "gates", "unsteered", "skipped")},
         "clauses": sorted(clauses),
         "clauses_violated_for_other_properties": other,
